@@ -5,7 +5,7 @@ import re
 import sys
 
 import driver as D
-from driver import Job, CmdJob, S, LIBC, PERM_UF, SPEC, KDFSPEC, ABSHASH, CLEAN, HASH_REAL, HARN
+from driver import Job, CmdJob, ProbeJob, S, LIBC, PERM_UF, SPEC, KDFSPEC, ABSHASH, CLEAN, HASH_REAL, HARN
 
 KSS = (128, 192, 256)
 PROPS = {}
@@ -58,6 +58,7 @@ AEAD_ASSUME = ["cbmc 6.11.0 front end / symex / flattening and z3 4.8.12 are tru
 
 
 def align_variants(jobs, pred, offsets=(1, 2, 3)):
+    jobs = [j for j in jobs if not getattr(j, "probe", False)]
     """Re-issue selected queries with every caller buffer placed at byte offset k of its heap object (-DVERIF_ALIGN=k):
     CBMC puts object bases on word boundaries, so k is the pointer value modulo 4 and alignment-dependent paths
     ((uintptr_t)p & 3 fast paths, word-wide accesses guarded by an alignment test) are executed on that side."""
@@ -75,12 +76,32 @@ def align_variants(jobs, pred, offsets=(1, 2, 3)):
     return out
 
 
+def len_probes(mode):
+    """Symbolic-length probes for narrow loop counters (lengths far beyond the shape windows), one per upper bound so
+    that a hit comes with the smallest class of lengths and can be confirmed natively."""
+    jobs = []
+    for ks in KSS:
+        for (tag, lmax) in (("1M", 1 << 20), ("64M", 1 << 26), ("4G", (1 << 32) - 1)):
+            jobs.append(ProbeJob("lenprobe-%s-%d-upto%s" % (mode, ks, tag), "c01_len.c", {"API": 1, "KS": ks, "MODE": mode, "LENMAX": "%dull" % lmax},
+                                 aead_cbmc(ks, mode),
+                                 (os.path.join(HARN, "c01_rt.c"), {"KS": ks, "MODE": mode, "ADLEN": 3, "ALIAS": 0}, aead_native(ks, mode), "MLEN"),
+                                 facet="length-truncation probe (symbolic length up to %s)" % tag))
+    return jobs
+
+
 # ---- C01 -------------------------------------------------------------------------------
+def rt_window(tier):
+    # the encrypt+decrypt round trip doubles the formula and gives no verdict within 15 min beyond ~1000 bytes on any back
+    # end; shapes above 300 bytes are covered by the single-pass conformance queries of C02 / C09 and the arbitrary-packet
+    # decrypt queries of C03 / C08 instead
+    return [(a, m) for (a, m) in aead_window(tier) if a <= 300 and m <= 300]
+
+
 @prop("C01")
 def c01(tier):
     jobs = []
     for ks in KSS:
-        for (a, m) in aead_window(tier):
+        for (a, m) in rt_window(tier):
             thin = (a in (0, 5) and m < 100) if tier == "quick" else (a <= 17 and m <= 17 and a % 3 == 0) or m > 100
             for alias in (0, 1, 2, 3):
                 if alias and not thin:
@@ -89,6 +110,7 @@ def c01(tier):
                                 {"KS": ks, "MODE": "aead", "ADLEN": a, "MLEN": m, "ALIAS": alias},
                                 aead_cbmc(ks), aead_native(ks), unwind=unwind_for(a, m, 32),
                                 timeout=300 if tier == "quick" else 900, facet="roundtrip-alias%d" % alias))
+    jobs += len_probes("aead")
     jobs += align_variants(jobs, lambda j: j.defines["ALIAS"] in (0, 3) and (j.defines["ADLEN"], j.defines["MLEN"]) in
                            ((0, 0), (5, 9), (4, 8), (3, 67), (0, 33), (7, 3)))
     meta = {
@@ -96,8 +118,9 @@ def c01(tier):
                      ["tinyjambu_setup_N", "tinyjambu_absorb_N", "tinyjambu_generate_tag_N", "tinyjambu_aead_check_tag"],
         "units": ["src/tinyjambu-{128,192,256}-aead.c", "src/backend/tinyjambu-aead-common-{128,192,256}.c",
                   "src/backend/tinyjambu-util.c", "src/backend/tinyjambu-util.h (macros)"],
-        "bounds": "(adlen, mlen) window: quick {0..9}^2; thorough {0..17}^2 + {31,32,33,47,63,64,65}^2 + "
-                  "{0,3,16} x {127..131,255..259,1023,1024}; all three key sizes; aliasing variants: separate, "
+        "bounds": "(adlen, mlen) window: quick {0..9}^2 + {0,3} x {33,64,65,67,130,259} + (33,2),(64,0),(67,5),(130,1); thorough {0..17}^2 + "
+                  "{31,32,33,47,63,64,65}^2 + {0,3,16} x {127..131,255..259} + {255,256,257} x {0,2,5} (round trips above 300 bytes give no "
+                  "verdict: see C02/C03 for 1023..1031); all three key sizes; aliasing variants: separate, "
                   "encrypt in place, decrypt in place, both; every key/nonce/ad/plaintext byte symbolic; loops "
                   "fully unrolled with --unwinding-assertions",
         "outside": "lengths outside the window; gcc code generation; alignment beyond the -DVERIF_ALIGN=1..3 variants of a cross-section of "
@@ -154,6 +177,7 @@ def dec_shapes(tier):
         return [(a, m) for a in (0, 1, 5, 8) for m in range(10)] + [(3, 17), (0, 33)]
     t = set((a, m) for a in range(0, 18, 1) for m in range(18) if a % 2 == 0 or m % 4 == 1)
     t |= set((a, m) for a in (0, 33) for m in (31, 32, 33, 63, 64, 65, 127, 129, 255, 258))
+    t |= set([(0, 1027), (3, 1031)])
     return sorted(t)
 
 
@@ -251,7 +275,7 @@ def c04(tier):
 def c08(tier):
     jobs = []
     for ks in KSS:
-        for (a, m) in aead_window(tier):
+        for (a, m) in rt_window(tier):
             thin = (a in (0, 5) and m < 10) if tier == "quick" else (a <= 17 and m <= 17 and a % 3 == 0) or m > 100
             if tier == "quick" and a not in (0, 3, 5, 33, 64, 67, 130):
                 continue
@@ -264,6 +288,7 @@ def c08(tier):
                                 timeout=300 if tier == "quick" else 900, facet="roundtrip-alias%d" % alias))
     jobs += dec_jobs(tier, "siv") + dec_jobs(tier, "siv", "c03_call.c", "call") + short_jobs("siv")
     jobs += [j for j in checktag_jobs(tier) if j.shape.get("PLEN", 0) <= 40]     # the shared verdict function, real code
+    jobs += len_probes("siv")
     jobs += dec_align(jobs)
     meta = {
         "functions": ["tinyjambu_%d_siv_encrypt" % k for k in KSS] + ["tinyjambu_%d_siv_decrypt" % k for k in KSS] +
@@ -675,14 +700,14 @@ def c17(tier):
 @prop("C18")
 def c18(tier):
     jobs = []
-    kmax = 8 if tier == "quick" else 16
+    kmax = 20 if tier == "quick" else 48
     for (cfg, label) in (("default", "getrandom"), ("getentropy", "getentropy"), ("syscall", "raw-syscall")):
         jobs.append(Job("trng-%s-k%d" % (label, kmax), "c18_trng.c", {"KMAX": kmax}, LIBC, [], backend="sat", unwind=32 * kmax + 40,
                         timeout=900, config=cfg, facet="fault script, %s variant" % label))
     jobs.append(Job("trng-dev-urandom-k%d" % kmax, "c18_trng.c", {"KMAX": kmax, "VARIANT_DEV": None}, LIBC, [], backend="sat",
                     unwind=32 * kmax + 40, timeout=900, config="syscall", facet="fault script, /dev/urandom variant (open/read/close)"))
     for (cfg, label) in (("default", "getrandom"), ("syscall", "raw-syscall")):
-        d = {"KMAX": 4 if tier == "quick" else 8, "CHAIN": None, "VERIF_CUT2": None}
+        d = {"KMAX": 4 if tier == "quick" else 20, "CHAIN": None, "VERIF_CUT2": None}
         jobs.append(Job("chain-prng-init-%s" % label, "c18_trng.c", d, CUT2_CBMC, CUT2_NATIVE, backend="sat",
                         unwind=32 * d["KMAX"] + 40, timeout=900, config=cfg, facet="tinyjambu_prng_init over the fault script"))
     meta = {
@@ -690,7 +715,7 @@ def c18(tier):
         "functions": ["tinyjambu_trng_generate", "tinyjambu_dev_random_read (static)", "tinyjambu_dev_random_open (static)",
                       "tinyjambu_prng_init / tinyjambu_prng_system (chain queries)"],
         "units": ["src/random/tinyjambu-trng-dev-random.c (#included after renaming the OS entry points)", "src/tinyjambu-prng.c (chain)"],
-        "bounds": "symbolic fault script of length K = 8 (thorough 16) over {success, EINTR, EAGAIN, permanent error with any other errno "
+        "bounds": "symbolic fault script of length K = 20 (thorough 48) over {success, EINTR, EAGAIN, permanent error with any other errno "
                   "in 1..4095, (device variant) short read}, assumed to contain a terminal event; four build variants: HAVE_GETRANDOM, "
                   "HAVE_GETENTROPY only, raw SYS_getrandom syscall, /dev/urandom with open/read/close (open may fail); number of OS calls == "
                   "index of the first terminal event + 1 (retries, no give-up, no extra call), success => the 32 OS bytes, permanent => 0 and "
